@@ -39,6 +39,7 @@ import ZoektModel.C01.WordLemmas
 import ZoektModel.C01.SelectLemmas
 import ZoektModel.C01.CaseLemmas
 import ZoektModel.C01.RegexBridge
+import ZoektModel.C01.RegexEq
 namespace ZoektModel.C01
 
 /-- **one `evalMatchTree` call** on a consistent tree: the tree stays consistent, its plain value is unchanged, a decided
@@ -647,6 +648,20 @@ theorem C01_search_exact_regexp (ctx : Ctx) (hw : ctx.WF) (ci : Bool) (r : Rx) (
     have := prefilter_sound ctx 0 d ci r P hc hP (heng d hd hb)
     simp only [semF] at this
     simp [this]
+
+/-- **`extract_isEqual`** (L9): when `regexpToMatchTreeRecursive` reports `isEqual` (literals of ≥ 3 runes under
+    capture / plus / `{1,n}` / alternation), the extracted tree is true on a document exactly when the regexp matches its
+    content — so `newMatchTree` may return the tree in place of the regexp -/
+theorem extract_isEqual (ctx : Ctx) (d : Nat) (ci : Bool) (r : Rx) (hw : r.WFr)
+    (he : (r.extract (!ci)).isEq = true) :
+    (r.extract (!ci)).tree.semB ctx d = true ↔ r.matchesText ci (ctx.text false d) :=
+  extract_isEqual_doc ctx d ci r hw he
+
+/-! non-vacuity: `(abc)+|cde` is `isEqual`: its extraction is or[abc, cde] -/
+def exRxEq : Rx := .alt (.cons (.plus (.cap (.lit [97, 98, 99] false))) (.cons (.lit [99, 100, 101] false) .nil))
+example : (exRxEq.extract true).isEq = true ∧ exRxEq.WFr ∧
+    (exRxEq.extract true).tree = .or [.sub [97, 98, 99] true, .sub [99, 100, 101] true] := by
+  simp [exRxEq, Rx.extract, Rxs.extractAll, Lit.isBrute, Rx.WFr, Rxs.WFrAll]
 
 /-! non-vacuity: the regexp `abc.*cde` as a syntax tree; its extraction is the same-line node over "abc" and "cde";
     it matches "abc cde" (document 0 of `exCtxA`), and `exTreeA`'s pre-filter corresponds to the extracted tree -/
